@@ -59,16 +59,16 @@ theorem innerOr_of_cres {S : Store} {children : List Key} {S1 : Store} {child : 
     (hw : WF S)
     (h : CRes S .disj children none S1 child) : InnerOr S children S1 child := by
   cases h with
-  | const h1 h2 =>
+  | const h1 h2 _ =>
     subst h1
     exact ⟨id, rfl, ⟨[], by simp, by simp⟩, fun cs j hl => Or.inl hl, Or.inl h2⟩
-  | named n h1 _ _ => cases h1
+  | named n h1 _ _ _ => cases h1
   | reuse i c2 h1 h2 h3 h4 =>
     subst h1
     obtain ⟨hi, nm', hn⟩ := hw.disj c2 i h3
     exact ⟨id, rfl, ⟨[], by simp, by simp⟩, fun cs j hl => Or.inl hl,
       Or.inr ⟨i, c2, nm', h2, hi, hn, h4, Or.inr h3⟩⟩
-  | fresh c2 h1 hf h4 =>
+  | fresh c2 h1 hf h4 _ =>
     refine ⟨hf.wf, hf.opts, ⟨[Node.disj c2 none], by simp, hf.nodes⟩, fun cs j hl => ?_,
       Or.inr ⟨S.nodes.length + 1, c2, none, h1, by omega, hf.get, h4, Or.inl rfl⟩⟩
     rcases hf.disj with hd | ⟨_, _, hd⟩
